@@ -51,10 +51,14 @@ func (cp *CachedPlanner) hash(ctx *PlanningContext) hashKey {
 	fragmentTypeConditions(ctx.Operation.SelectionSet, map[string]bool{}, &conds)
 	sort.Strings(conds)
 	s += strings.Join(conds, ",")
-	// variables used inside a literal of a custom scalar are declared downstream with the client's own type
+	// variables used inside a literal of a custom scalar are declared downstream with the client's own type;
+	// the plan keeps the operation it was built from, and with it the defaults of its variables
 	for _, vd := range ctx.Operation.VariableDefinitions {
 		if vd.Type != nil {
 			s += " $" + vd.Variable + ":" + vd.Type.String()
+		}
+		if vd.DefaultValue != nil {
+			s += "=" + vd.DefaultValue.String()
 		}
 	}
 	sha1 := sha1.Sum([]byte(s))
